@@ -33,6 +33,9 @@ func (x *intx) fail(format string, a ...interface{}) string {
 }
 
 func uintWidth(t types.Type) int {
+	if t == nil {
+		return 0
+	}
 	b, ok := t.Underlying().(*types.Basic)
 	if !ok {
 		return 0
